@@ -7,22 +7,33 @@ LEVEL = "model_checking"
 
 def run(rep, tier):
     wd = common.workdir("C15")
+    # design level: the code-shaped selection / retrieval / retriever algorithms implement the user-level statements of Select.tla
+    r = common.tlc("BinFhe/MC_Select", workers=8, wd=wd, timeout=1800)
+    common.tlc_must(r, "MC_Select")
+    rep.add_tlc(r, "MC_Select")
+    if not r.ok:
+        rep.violation("spec:MC_Select:" + str(r.invariant), "invariant %s of MC_Select fails in the specification" % r.invariant, {"tlc": r.out[-3000:]})
+        return
+    # negative control: the same model with the retriever's merge gate reversed must be refuted
+    rn = common.tlc("BinFhe/MC_Select", cfg="BinFhe/MC_Select_neg", workers=8, wd=wd, timeout=1800)
+    if rn.ok or rn.invariant != "AllOK":
+        raise common.ToolError("MC_Select negative control (reversed merge gate) was not refuted:\n" + rn.out[-1500:])
     rows = fhepipe.gen(rep, wd, "c15_" + tier)
     events, bad = fhepipe.run(rep, wd, rows, "c15", shards=8 if tier == "quick" else 14)
     nb = fhepipe.report(rep, events, bad, {"sem"}, "c15")
     kinds = {}
     for e in events:
-        k = e["kind"] + (":" + e["op"] if e["kind"] == "word" else "")
+        k = e["kind"] + (":" + e["op"] if e["kind"] in ("word", "blind") else "")
         kinds[k] = kinds.get(k, 0) + 1
     rep.extra["behaviours"] = kinds
     rep.evaluations += sum(len(e["outs"]) for e in events)
     rep.distinct += len(events)
-    rep.rule = ("%d behaviours enumerated by TLC (Gen_Fhe: 10 word operations x boundary dictionary pairs {0, 1, 2^31, 2^32-1, alternating, single bits, shift amounts 31..63, ...}; bit surgery on packed words (sext, zero_byte, splice_u8, splice_u16, get_bit) decided against the bit-level definition; partial "
+    rep.rule = ("%d behaviours enumerated by TLC (Gen_Fhe: 10 word operations x boundary dictionary pairs {0, 1, 2^31, 2^32-1, alternating, single bits, shift amounts 31..63, ...}; bit surgery on packed words (sext, zero_byte, splice_u8, splice_u16, get_bit) decided against the bit-level definition; oblivious data movement under an encrypted index (blind selection over sparse maps, blind retrieval forward / reverse, the stateful retriever over add / flush histories, cswap, blind rotation) decided against Select.tla, whose code-shaped algorithms MC_Select checks against the user-level statements for every map / length / selector in scope; partial "
                 "preparation over (start, count); chains op -> re-prepare (circuit bootstrapping) -> op; FFT64Ref and FFT64Avx) executed on the library's own key material (N=256, rank 2, "
                 "block-binary LWE key); the decrypted words are decided bit for bit by TLC against WordOps.tla (the specification C13 proves the compiled circuits against); distinct = behaviours"
                 % len(events))
     rep.sample({k: events[0][k] for k in events[0] if k != "outs"})
     log("[C15] %d behaviours, %d rejected" % (len(events), nb))
     rep.assumptions += ["one parameter set (the crate's public test context); u32 only",
-                        "bit extraction / splice / sign extension / swap / blind selection and retrieval entry points are not driven yet (only through the word operations and preparation)",
+                        "blind selection / retrieval / rotation are judged on the decoded plaintext (coefficient values at the plaintext scale), not limb by limb",
                         "circuit bootstrapping is observed through the prepared word's behaviour (OR with zero), not cell by cell"]
